@@ -90,8 +90,20 @@ func (x *Exec) walkWithInvariant(c *CallCtx, d collDesc, h int, fn *ssa.Function
 		card := e.DeclFun("card."+sanitize(d.sort), []string{d.sort}, "Int")
 		st.Assume(eq(wn, app(card, m0)))
 	}
-	st.Assume(fmt.Sprintf("(forall ((t Int)) (! (=> (and (<= 0 t) (< t %s)) (and %s %s)) :pattern ((%s t))))", wn,
-		isSomeT(app("select", m0, app(wkey, "t")), optS), inRange(app(wkey, "t")), wkey))
+	keyFacts := "true"
+	if strings.HasPrefix(ks, "(Pair") {
+		// stored keys are well-formed values of their Go types (e.g. uint64 components are in range)
+		var fs []string
+		if n, ok := types.Unalias(d.keyTy).(*types.Named); ok && n.TypeArgs() != nil && n.TypeArgs().Len() == 2 {
+			fs = append(fs, e.TypeFacts(app("fst", app(wkey, "t")), n.TypeArgs().At(0), 1)...)
+			fs = append(fs, e.TypeFacts(app("snd", app(wkey, "t")), n.TypeArgs().At(1), 1)...)
+		}
+		keyFacts = and(fs...)
+	} else {
+		keyFacts = and(e.TypeFacts(app(wkey, "t"), d.keyTy, 1)...)
+	}
+	st.Assume(fmt.Sprintf("(forall ((t Int)) (! (=> (and (<= 0 t) (< t %s)) (and %s %s %s)) :pattern ((%s t))))", wn,
+		isSomeT(app("select", m0, app(wkey, "t")), optS), inRange(app(wkey, "t")), keyFacts, wkey))
 	st.Assume(fmt.Sprintf("(forall ((k %s)) (! (=> (and %s %s) (and (<= 0 (%s k)) (< (%s k) %s) (= (%s (%s k)) k))) :pattern ((%s k)) :pattern ((select %s k))))", ks,
 		isSomeT(app("select", m0, "k"), optS), inRange("k"), widx, widx, wn, wkey, widx, widx, m0))
 	st.Assume(fmt.Sprintf("(forall ((t Int)) (! (=> (and (<= 0 t) (< t %s)) (= (%s (%s t)) t)) :pattern ((%s t))))", wn, widx, wkey, wkey))
@@ -102,9 +114,6 @@ func (x *Exec) walkWithInvariant(c *CallCtx, d collDesc, h int, fn *ssa.Function
 	st.Assume(fmt.Sprintf("(forall ((t Int) (u Int)) (! (=> (and (<= 0 t) (< t u) (< u %s)) %s) :pattern ((%s t) (%s u))))", wn, ord, wkey, wkey))
 
 	fr := c.fr
-	for fr.parent != nil {
-		fr = fr.parent
-	}
 	evalInv := func(s *State, cl *Clause, i string) string {
 		env := x.frameEnv(s, fr)
 		bound := x.letBound(x.contractOf(fr.fn), fr)
